@@ -30,7 +30,7 @@ MANIFEST = dict(
 )
 
 FIELDS = ["id", "k", "f", "name", "sku"]
-SVALS = ["1", "2", "A", "B", "ab", "x y", "b"]
+SVALS = ["1", "2", "A", "B", "ab", "x y", "b", "C++", "a+b", "C", "a b"]
 NVALS = [1, 2, 0, 7]
 
 
